@@ -1543,6 +1543,11 @@ func genTyped(repo string) (string, error) {
 		}
 	}
 	b.WriteString(nilFactsLean())
+	if cs, err := callSitesLean(repo); err != nil { // callsites.go: trie use of blockchain.CalculateEventRoot
+		return "", err
+	} else {
+		b.WriteString(cs)
+	}
 	b.WriteString("end LiskVerif.Gen\n")
 	return b.String(), nil
 }
